@@ -143,7 +143,7 @@ func (in *Interp) feasible(t *Term) bool {
 	if in.Solver.Dead {
 		panic(pathEnd{"unknown"})
 	}
-	r := in.Solver.Check(t)
+	r := in.Solver.CheckFeas(t)
 	if r == SolverError {
 		in.noteInconclusive("solver error on feasibility query: " + in.Solver.LastError)
 	}
